@@ -3243,7 +3243,21 @@ class Interp:
                 self.eval(fr, node.slice.step)
             return self.slice_of(fr, v, lo, hi, node)
         idx = self.eval(fr, node.slice)
-        return self.index_of(fr, v, idx, node)
+        r = self.index_of(fr, v, idx, node)
+        if isinstance(node.slice, ast.Name) and not isinstance(node.ctx, ast.Store):
+            # items[i] with a running index: the element read here is one specific element (like the target of a for loop)
+            tag = ('sub',) + pos_of(node)
+            hit = []
+
+            def f(t):
+                if t == '*':
+                    hit.append(t)
+                    return tag
+                return t
+            r = map_tags(r, f)
+            if hit:
+                fr.local_tags.add(tag)
+        return r
 
     @staticmethod
     def const_int(val):
@@ -3836,6 +3850,15 @@ class Interp:
             if isinstance(s_, tuple) and s_ and s_[0] == 'ctr':
                 return ('ctr', s_[1], s_[2] + expr.left.value)
             return None
+        if isinstance(expr, ast.Subscript) and isinstance(expr.value, ast.Name) and isinstance(expr.slice, ast.BinOp) \
+                and isinstance(expr.slice.op, (ast.Add, ast.Sub)) and isinstance(expr.slice.left, ast.Name) and isinstance(expr.slice.right, ast.Constant) \
+                and type(expr.slice.right.value) is int:
+            inner = ast.copy_location(ast.Subscript(value=expr.value, slice=expr.slice.left, ctx=ast.Load()), expr)
+            s_ = self.sym_of(fr, inner)
+            if isinstance(s_, tuple) and s_ and s_[0] == 'at':
+                d_ = expr.slice.right.value if isinstance(expr.slice.op, ast.Add) else -expr.slice.right.value
+                return ('at', s_[1], s_[2] + d_)
+            return None
         if isinstance(expr, ast.Subscript) and isinstance(expr.value, ast.Name) and isinstance(expr.slice, ast.Name) \
                 and self.owner_frame(fr, expr.value.id) is fr and self.owner_frame(fr, expr.slice.id) is fr:
             # rows[i] of the physical lines: the element at the position the counter i has now (i is given a counter identity)
@@ -4062,6 +4085,13 @@ class Interp:
             if ct and gained:
                 s_t.facts = s_t.facts | gained
             return ct, s_t, cf, s_f
+        if isinstance(test.func, ast.Attribute) and test.func.attr == 'isdecimal' and not test.args and isinstance(test.func.value, ast.Name):
+            # text made of decimal digits only: int() accepts it (isdigit() is not enough: it is also true for '\u00b2')
+            xv = self.eval(fr, test.func.value)
+            yes = frozenset(('str', 's', 'digits') if (a[0] in ('str', 'tok')) else a for a in xv
+                            if not (a[0] == 'c' and a[1] == 'str' and not a[2].isdecimal()) and (is_str_atom(a) or a in (TOP, DATA)))
+            no = frozenset(a for a in xv if not (a[0] == 'c' and a[1] == 'str' and a[2].isdecimal()))
+            return self.split(fr, store, refine, test.func.value.id, yes, no)
         if isinstance(test.func, ast.Attribute) and test.func.attr == 'startswith' and len(test.args) == 1:
             v = self.eval(fr, test)
             kv = self.eval(fr, test.args[0])
@@ -5042,7 +5072,7 @@ class Interp:
             elif a[0] == 'str':
                 if a[1] == 'u':
                     raises = True
-                    if a[2] == 'maybe-size':
+                    if a[2] in ('maybe-size', 'matched'):
                         unsure_tok = True
                 out.add(INT_U if a[1] == 'u' else INT_S)
             elif is_int_atom(a) or a == FLOAT:
@@ -5065,7 +5095,7 @@ class Interp:
             self.ev_discharge[id(node)] = (fr.qual, node, 'dominated', 'int', okf)
             raises = False
         if raises:
-            really = sure_tok or any((a[0] == 'str' and a[1] == 'u' and a[2] != 'maybe-size') or (a[0] == 'c' and a[1] == 'str') for a in args.pos[0])
+            really = sure_tok or any((a[0] == 'str' and a[1] == 'u' and a[2] not in ('maybe-size', 'matched')) or (a[0] == 'c' and a[1] == 'str') for a in args.pos[0])
             self.library_raise(fr, 'ValueError', node, uncertain=not really)
         if okf is not None:
             fr.store.facts = fr.store.facts | {okf}
@@ -5107,7 +5137,7 @@ class Interp:
                         c, q = self.find_method(a[1], '__len__')
                         if q is not None:
                             self.call_user(fr, ('fn', q), Args(), node, av(a))
-            return av(INT_U)
+            return av(INT_S)        # a length is bounded by what fits in memory: not a magnitude the user picks freely
         if name in ('isinstance', 'issubclass', 'hasattr', 'callable'):
             return av(BOOL)
         if name == 'getattr':
@@ -5439,7 +5469,11 @@ class Interp:
                 return av(TOP), None
             if kind == 're.Match':
                 if attr in ('group', '__getitem__'):
-                    return av(STR_U), None
+                    which = self.const_int(x) if x is not None else 0
+                    if which is not None and len(a) > 2 and self.group_is_decimal(a[2], which):
+                        return av(('str', 's', 'digits')), None
+                    # text the pattern let through: whether a conversion of it can fail is not known
+                    return av(('str', 'u', 'matched')), None
                 if attr in ('groups',):
                     return av(('list', av(STR_U, NONE))), None
                 if attr == 'groupdict':
@@ -5459,6 +5493,63 @@ class Interp:
                 return av(INT_S), None
             return BOT, None        # AttributeError: not among the judged faults
         return av(TOP), None
+
+    @staticmethod
+    def group_is_decimal(pat, which):
+        """does group `which` of the (constant) pattern match decimal digits only (so that int() accepts it)"""
+        if not pat or not all(is_const(p_) and p_[1] == 'str' for p_ in pat):
+            return False
+        try:
+            import re._parser as sre
+            import re._constants as C_
+        except ImportError:
+            return False
+
+        def digits(items):
+            for op, arg in items:
+                if op is C_.IN:
+                    if not all((o2 is C_.CATEGORY and a2 is C_.CATEGORY_DIGIT) or (o2 is C_.RANGE and 48 <= a2[0] <= a2[1] <= 57)
+                               or (o2 is C_.LITERAL and 48 <= a2 <= 57) for o2, a2 in arg):
+                        return False
+                elif op is C_.LITERAL:
+                    if not 48 <= arg <= 57:
+                        return False
+                elif op in (C_.MAX_REPEAT, C_.MIN_REPEAT):
+                    if arg[0] < 1 or not digits(arg[2]):
+                        return False
+                elif op is C_.SUBPATTERN:
+                    if not digits(arg[3]):
+                        return False
+                else:
+                    return False
+            return True
+
+        def find(items, n):
+            for op, arg in items:
+                if op is C_.SUBPATTERN:
+                    if arg[0] == n:
+                        return arg[3]
+                    r = find(arg[3], n)
+                    if r is not None:
+                        return r
+                elif op in (C_.MAX_REPEAT, C_.MIN_REPEAT):
+                    r = find(arg[2], n)
+                    if r is not None:
+                        return r
+                elif op is C_.BRANCH:
+                    return None
+            return None
+        for p_ in pat:
+            try:
+                tree = sre.parse(p_[2])
+            except Exception:
+                return False
+            grp = list(tree) if which == 0 else find(tree, which)
+            if which == 0:
+                grp = [it_ for it_ in grp if it_[0] is not C_.AT]
+            if grp is None or not grp or not digits(grp):
+                return False
+        return True
 
     def dict_method(self, fr, a, attr, args, node):
         k = a[0]
@@ -5897,7 +5988,7 @@ class Interp:
                         sz = sz | a[2][1]
                 return av(('toks', None, None, sz))
             if fn in ('match', 'search', 'fullmatch'):
-                return av(NONE, ('libobj', 're.Match'))
+                return av(NONE, ('libobj', 're.Match', x if x is not None else av(TOP)))
             if fn in ('findall',):
                 src = pos[1] if len(pos) > 1 else args.kw.get('string', av(STR_U))
                 sz = frozenset()
@@ -5930,8 +6021,7 @@ class Interp:
                     vals_user = True
                 if not fmt_ok or vals_user:
                     sure = (x is not None and any(a != TOP and not (is_const(a) and a[1] in ('str', 'bytes')) for a in x)) \
-                        or any(self.user_value(v, sure=True) for v in pos[1:]) or (args.star is not None and self.user_value(args.star, sure=True)) \
-                        or fn.startswith('unpack') or fn == 'iter_unpack'
+                        or (fn == 'pack' and (any(self.user_value(v, sure=True) for v in pos[1:]) or (args.star is not None and self.user_value(args.star, sure=True))))
                     self.library_raise(fr, 'struct.error', node, uncertain=not sure)
                 if fn == 'calcsize':
                     return av(INT_S)
